@@ -1,5 +1,6 @@
 import Splipy.Lemmas.C10Insert
 import Splipy.Lemmas.C04PerSeq
+import Splipy.Lemmas.C04PerKnots
 
 /-!
 # C10 helper lemmas: knot insertion along a PERIODIC direction keeps an object well formed
@@ -502,6 +503,677 @@ theorem stepOut_refine_any_wf_partial {o : Obj K} (h : o.WellFormed) (tol : K) (
     rw [← this]
     obtain ⟨l, hl⟩ := Obj.refine_eq_fold tol ns direction hres
     exact ⟨(Obj.GuardWF.refineFold tol htol l o o1 ⟨h, hdirs⟩ hl).1, rfl⟩
+
+end History
+
+/-! # Every valid periodic basis: the end of the domain and the cover branch
+
+`insert_knot` now accepts every real for every valid periodic basis: the wrapped value may be the end
+of the domain (insertion index clamped to `len(knots) - p`), and a basis with `n < p + k` functions is
+refined through its `R`-fold cover.
+
+At the end of the domain the matrix need NOT be row stochastic: for the valid basis
+`⟨2, #[0,0,1,1,2], 0⟩` (`n = 2 = p + k`, a knot of multiplicity `p` at the seam) `insert_knot(1)`
+returns `[[1,0],[0,1],[1,1]]` — both guards `knots[i+p-1] <= x <= knots[i+p]` and
+`knots[i] <= x <= knots[i+1]` of the middle loop hold at once, the last row sums to `2`.
+What always holds, and what positivity of the weights needs, is `RowPositive`: entries `≥ 0`, every
+row sum `≥ 1`.  Exact row sums `= 1` hold whenever the wrapped value is not the end of the domain
+(`insertKnot_stochastic_periodic_all_partial`).
+-/
+
+namespace C10
+
+/-- `rows × cols`, entries `≥ 0`, every row sums to at least one. -/
+def RowPositive (rows cols : ℕ) (C : Mat K) : Prop :=
+  C04.Shape rows cols C ∧ (∀ r c, r < rows → c < cols → 0 ≤ C04.entry C r c) ∧
+    (∀ r, r < rows → 1 ≤ (Finset.range cols).sum (fun c => C04.entry C r c))
+
+theorem RowStochastic.rowPositive {rows cols : ℕ} {C : Mat K} (h : RowStochastic rows cols C) :
+    RowPositive rows cols C :=
+  ⟨h.1, h.2.1, fun r hr => le_of_eq (h.2.2 r hr).symm⟩
+
+theorem RowPositive.mul {a m n : ℕ} {A B : Mat K} (hA : RowPositive a m A)
+    (hB : RowPositive m n B) (hm : 0 < m) : RowPositive a n (Mat.mul A B) := by
+  refine ⟨C04.shape_mul hA.1 hB.1 hm, fun r c hr hc => ?_, fun r hr => ?_⟩
+  · rw [C04.entry_mul hA.1 hB.1 hm r c hr hc]
+    exact Finset.sum_nonneg (fun l hl => mul_nonneg (hA.2.1 r l hr (Finset.mem_range.1 hl))
+      (hB.2.1 l c (Finset.mem_range.1 hl) hc))
+  · rw [Finset.sum_congr rfl (fun c hc => C04.entry_mul hA.1 hB.1 hm r c hr (Finset.mem_range.1 hc)),
+      Finset.sum_comm]
+    have : ∀ l ∈ Finset.range m, C04.entry A r l
+        ≤ (Finset.range n).sum (fun c => C04.entry A r l * C04.entry B l c) := by
+      intro l hl
+      rw [← Finset.mul_sum]
+      calc C04.entry A r l = C04.entry A r l * 1 := (mul_one _).symm
+        _ ≤ _ := mul_le_mul_of_nonneg_left (hB.2.2 l (Finset.mem_range.1 hl))
+            (hA.2.1 r l hr (Finset.mem_range.1 hl))
+    exact le_trans (hA.2.2 r hr) (Finset.sum_le_sum this)
+
+/-- A row-positive matrix maps positive vectors to positive vectors. -/
+theorem RowPositive.mulVec_pos {rows cols : ℕ} {C : Mat K} (h : RowPositive rows cols C)
+    (w : ℕ → K) (hw : ∀ j, j < cols → 0 < w j) (r : ℕ) (hr : r < rows) :
+    0 < C04.mulVec C cols w r := by
+  unfold C04.mulVec
+  apply Finset.sum_pos'
+  · intro j hj
+    exact mul_nonneg (h.2.1 r j hr (Finset.mem_range.1 hj)) (le_of_lt (hw j (Finset.mem_range.1 hj)))
+  · by_contra hcon
+    have hz : ∀ j ∈ Finset.range cols, C04.entry C r j = 0 := by
+      intro j hj
+      have h1 := h.2.1 r j hr (Finset.mem_range.1 hj)
+      rcases lt_or_eq_of_le h1 with h2 | h2
+      · exact absurd ⟨j, hj, mul_pos h2 (hw j (Finset.mem_range.1 hj))⟩ hcon
+      · exact h2.symm
+    have := h.2.2 r hr
+    rw [Finset.sum_eq_zero hz] at this
+    exact absurd this (not_le.2 zero_lt_one)
+
+/-- The first `m` rows of a row-positive / row-stochastic matrix. -/
+theorem RowPositive.extract {rows cols : ℕ} {C : Mat K} (h : RowPositive rows cols C) (m : ℕ)
+    (hm : m ≤ rows) : RowPositive m cols (C.extract 0 m) := by
+  obtain ⟨hs, he⟩ := C04.shape_extract C rows cols m h.1 hm
+  refine ⟨hs, fun r c hr hc => ?_, fun r hr => ?_⟩
+  · rw [he r c hr]; exact h.2.1 r c (by omega) hc
+  · rw [Finset.sum_congr rfl (fun c _ => he r c hr)]; exact h.2.2 r (by omega)
+
+theorem RowStochastic.extract {rows cols : ℕ} {C : Mat K} (h : RowStochastic rows cols C) (m : ℕ)
+    (hm : m ≤ rows) : RowStochastic m cols (C.extract 0 m) := by
+  obtain ⟨hs, he⟩ := C04.shape_extract C rows cols m h.1 hm
+  refine ⟨hs, fun r c hr hc => ?_, fun r hr => ?_⟩
+  · rw [he r c hr]; exact h.2.1 r c (by omega) hc
+  · rw [Finset.sum_congr rfl (fun c _ => he r c hr)]; exact h.2.2 r (by omega)
+
+/-- `np.tile(np.identity(n), (R, 1))` is row stochastic. -/
+theorem rowStochastic_tile (n R : ℕ) (hn : 0 < n) :
+    RowStochastic (R * n) n (Basis.tileIdentity n R : Mat K) := by
+  have he : ∀ r c, r < R * n → c < n →
+      C04.entry (Basis.tileIdentity n R : Mat K) r c = if r % n = c then 1 else 0 := by
+    intro r c hr hc
+    unfold Basis.tileIdentity
+    exact C04.entry_ofFn2 (R * n) n (fun r c => if r % n = c then (1 : K) else 0) r c hr hc
+  refine ⟨C04.tile_shape n R, fun r c hr hc => ?_, fun r hr => ?_⟩
+  · rw [he r c hr hc]
+    split_ifs
+    · exact zero_le_one
+    · exact le_refl _
+  · rw [Finset.sum_congr rfl (fun c hc => he r c hr (Finset.mem_range.1 hc)),
+      Finset.sum_ite_eq, if_pos (Finset.mem_range.2 (Nat.mod_lt _ hn))]
+
+/-! ## the end of the domain: `x ≤ τ i` instead of `x < τ i` above the insertion index -/
+
+theorem gd_add_gs_ge (τ : ℕ → K) (hτ : Monotone τ) (x : K) (p r : ℕ) (hp : 1 ≤ p) (hr : 1 ≤ r)
+    (h1 : τ (r - 1) ≤ x) (h2 : τ r ≤ x) (h3 : x ≤ τ (r + p - 1)) :
+    1 ≤ C04.gd τ x p r + C04.gs τ x p (r - 1) := by
+  rcases lt_or_eq_of_le h3 with h | h
+  · exact le_of_eq (gd_add_gs τ x p r hr h1 h2 h).symm
+  · have hgd : C04.gd τ x p r = 1 := by
+      unfold C04.gd
+      rw [if_pos ⟨le_of_eq h.symm, le_trans h3 (hτ (by omega))⟩]
+    have hgs : 0 ≤ C04.gs τ x p (r - 1) :=
+      gs_nonneg τ hτ x p (r - 1) hp (by rw [show r - 1 + p = r + p - 1 by omega]; exact h3)
+    rw [hgd]
+    linarith
+
+theorem perF_nonneg_le (τ : ℕ → K) (hτ : Monotone τ) (x : K) (n p j : ℕ) (hjp : j + 2 ≤ p)
+    (hlo : ∀ i, i < n + 1 + j → τ i ≤ x) (hhi : ∀ i, n + 1 + j ≤ i → i ≤ n + p + j → x ≤ τ i)
+    (r c : ℕ) (hc : c < n) : 0 ≤ perF τ x n p j r c := by
+  unfold perF
+  split_ifs with h1 h2 h3 h4 h5
+  · exact gs_nonneg τ hτ x p (n + c) (by omega) (hhi _ (by omega) (by omega))
+  · exact gd_nonneg τ hτ x p (n + c) (by omega) (hlo _ (by omega))
+  · exact gs_nonneg τ hτ x p c (by omega) (hhi _ (by omega) (by omega))
+  · exact gd_nonneg τ hτ x p c (by omega) (hlo _ (by omega))
+  · exact zero_le_one
+  · exact le_refl _
+
+theorem perF_row_sum_ge (τ : ℕ → K) (hτ : Monotone τ) (x : K) (n p j : ℕ) (hjp : j + 2 ≤ p)
+    (hg : p + j ≤ n) (hlo : ∀ i, i < n + 1 + j → τ i ≤ x)
+    (hhi : ∀ i, n + 1 + j ≤ i → i ≤ n + p + j → x ≤ τ i)
+    (r : ℕ) (hr : r < n + 1) : 1 ≤ (Finset.range n).sum (fun c => perF τ x n p j r c) := by
+  by_cases hA : r < j
+  · rw [Finset.sum_eq_add_of_mem r (r + 1) (Finset.mem_range.2 (by omega))
+      (Finset.mem_range.2 (by omega)) (by omega) (by
+        intro c hc hne
+        have hc' := Finset.mem_range.1 hc
+        unfold perF
+        split_ifs <;> first | rfl | (exfalso; omega))]
+    have v1 : perF τ x n p j r r = C04.gs τ x p (n + r + 1 - 1) := by
+      unfold perF; rw [if_pos ⟨by omega, rfl⟩]; rfl
+    have v2 : perF τ x n p j r (r + 1) = C04.gd τ x p (n + r + 1) := by
+      unfold perF
+      rw [if_neg (by omega), if_pos ⟨by omega, Or.inl rfl⟩]; rfl
+    rw [v1, v2, add_comm]
+    exact gd_add_gs_ge τ hτ x p (n + r + 1) (by omega) (by omega) (hlo _ (by omega))
+      (hlo _ (by omega)) (hhi _ (by omega) (by omega))
+  by_cases hB : r = j
+  · refine le_of_eq (Eq.symm ?_)
+    rw [Finset.sum_eq_single_of_mem r (Finset.mem_range.2 (by omega)) (by
+        intro c hc hne
+        have hc' := Finset.mem_range.1 hc
+        unfold perF
+        split_ifs <;> first | rfl | (exfalso; omega))]
+    unfold perF
+    rw [if_pos ⟨by omega, rfl⟩]
+    unfold C04.gs
+    rw [if_pos ⟨hlo _ (by omega), hhi _ (by omega) (by omega)⟩]
+  by_cases hC : r < n + 1 + j - p
+  · refine le_of_eq (Eq.symm ?_)
+    rw [Finset.sum_eq_single_of_mem r (Finset.mem_range.2 (by omega)) (by
+        intro c hc hne
+        have hc' := Finset.mem_range.1 hc
+        unfold perF
+        split_ifs <;> first | rfl | (exfalso; omega))]
+    unfold perF
+    rw [if_neg (by omega), if_neg (by omega), if_neg (by omega), if_neg (by omega),
+      if_pos ⟨rfl, hC⟩]
+  by_cases hD : r = n + 1 + j - p
+  · refine le_of_eq (Eq.symm ?_)
+    rw [Finset.sum_eq_single_of_mem r (Finset.mem_range.2 (by omega)) (by
+        intro c hc hne
+        have hc' := Finset.mem_range.1 hc
+        unfold perF
+        split_ifs <;> first | rfl | (exfalso; omega))]
+    unfold perF
+    rw [if_neg (by omega), if_neg (by omega), if_neg (by omega), if_pos ⟨by omega, rfl⟩]
+    unfold C04.gd
+    rw [if_pos]
+    rw [show r + p - 1 = n + j by omega, show r + p = n + j + 1 by omega]
+    exact ⟨hlo _ (by omega), hhi _ (by omega) (by omega)⟩
+  by_cases hE : r < n
+  · rw [Finset.sum_eq_add_of_mem r (r - 1) (Finset.mem_range.2 hE)
+      (Finset.mem_range.2 (by omega)) (by omega) (by
+        intro c hc hne
+        have hc' := Finset.mem_range.1 hc
+        unfold perF
+        split_ifs <;> first | rfl | (exfalso; omega))]
+    have v1 : perF τ x n p j r r = C04.gd τ x p r := by
+      unfold perF
+      rw [if_neg (by omega), if_neg (by omega), if_neg (by omega), if_pos ⟨by omega, rfl⟩]
+    have v2 : perF τ x n p j r (r - 1) = C04.gs τ x p (r - 1) := by
+      unfold perF
+      rw [if_neg (by omega), if_neg (by omega), if_pos ⟨by omega, by omega⟩]
+    rw [v1, v2]
+    exact gd_add_gs_ge τ hτ x p r (by omega) (by omega) (hlo _ (by omega)) (hlo _ (by omega))
+      (hhi _ (by omega) (by omega))
+  · have hrn : r = n := by omega
+    subst hrn
+    rw [Finset.sum_eq_add_of_mem 0 (r - 1) (Finset.mem_range.2 (by omega))
+      (Finset.mem_range.2 (by omega)) (by omega) (by
+        intro c hc hne
+        have hc' := Finset.mem_range.1 hc
+        unfold perF
+        split_ifs <;> first | rfl | (exfalso; omega))]
+    have v1 : perF τ x r p j r 0 = C04.gd τ x p r := by
+      unfold perF
+      rw [if_neg (by omega), if_pos ⟨by omega, Or.inr ⟨rfl, rfl⟩⟩]; rfl
+    have v2 : perF τ x r p j r (r - 1) = C04.gs τ x p (r - 1) := by
+      unfold perF
+      rw [if_neg (by omega), if_neg (by omega), if_pos ⟨by omega, by omega⟩]
+    rw [v1, v2]
+    exact gd_add_gs_ge τ hτ x p r (by omega) (by omega) (hlo _ (by omega)) (hlo _ (by omega))
+      (hhi _ (by omega) (by omega))
+
+/-- The wrapping case with `x ≤ τ i` above the insertion index (the end of the domain). -/
+theorem matC_wrap_rowPositive (τ : ℕ → K) (hτ : Monotone τ) (x : K) (n p j : ℕ) (hjp : j + 2 ≤ p)
+    (hg : p + j ≤ n) (hlo : ∀ i, i < n + 1 + j → τ i ≤ x)
+    (hhi : ∀ i, n + 1 + j ≤ i → i ≤ n + p + j → x ≤ τ i) :
+    RowPositive (n + 1) n (C04.matC τ x n p (n + 1 + j)) := by
+  have hrel := C04.rel_matC τ x n p (n + 1 + j) (by omega)
+  have hent : ∀ r c, r < n + 1 → c < n →
+      C04.entry (C04.matC τ x n p (n + 1 + j)) r c = perF τ x n p j r c := by
+    intro r c hr hc
+    rw [hrel.2 r c hr hc, matF_wrap τ x n p j hjp hg r c hc]
+  refine ⟨hrel.1, fun r c hr hc => ?_, fun r hr => ?_⟩
+  · rw [hent r c hr hc]; exact perF_nonneg_le τ hτ x n p j hjp hlo hhi r c hc
+  · rw [Finset.sum_congr rfl (fun c hc => hent r c hr (Finset.mem_range.1 hc))]
+    exact perF_row_sum_ge τ hτ x n p j hjp hg hlo hhi r hr
+
+/-! ## one insertion, guard `n ≥ p + k`, any `start ≤ x ≤ end` -/
+
+theorem wrapVal_of_mem (b : Basis K) (x : K) (hx : b.start ≤ x ∧ x ≤ b.stop) :
+    C04.wrapVal b x = x := by
+  unfold C04.wrapVal
+  rw [if_neg (not_or.2 ⟨not_lt.2 hx.1, not_lt.2 hx.2⟩)]
+
+theorem insertKnot_rowPositive_guard (c : Basis K) (hv : c.Valid) (k : ℕ)
+    (hk : c.periodic = (k : Int)) (hguard : c.order + k ≤ c.numFunctions) (x : K)
+    (hx : c.start ≤ x ∧ x ≤ c.stop) {c' : Basis K} {C : Mat K}
+    (h : c.insertKnot x = .ok (c', C)) : RowPositive (c.numFunctions + 1) c.numFunctions C := by
+  by_cases hlt : x < c.stop
+  · exact (insertKnot_stochastic_periodic c hv k hk hguard x
+      (by rw [wrapVal_of_mem c x hx]; exact ne_of_lt hlt) h).rowPositive
+  · have hxe : x = c.stop := le_antisymm hx.2 (not_lt.1 hlt)
+    obtain ⟨c1, C1, e1, _, _, _, _, _, _, _, _, _, _, eC⟩ :=
+      C04.insertKnot_periodic_le c hv k hk hguard x hx
+    rw [e1] at h
+    have hC : C = C04.matC c.kn x c.numFunctions c.order (c.insertMu x) := by
+      have := Except.ok.inj h
+      rw [← (Prod.mk.inj this).2]; exact eC
+    obtain ⟨_, _, m3, m4, _, m6⟩ := C04.insertMu_spec c hv k hk x hx
+    have hmu : c.insertMu x = c.numFunctions + 1 + k := by rw [m6 hxe]; omega
+    rw [hmu] at m3 m4
+    rw [hC, hmu]
+    have hmono : Monotone c.kn := C04.kn_mono hv.sorted
+    have hpk : k + 2 ≤ c.order := by
+      rcases hv.periodic_le with h' | h'
+      · rw [hk] at h'; omega
+      · rw [hk] at h'; omega
+    exact matC_wrap_rowPositive c.kn hmono x c.numFunctions c.order k hpk hguard
+      (fun i hi => le_trans (hmono (by omega)) m3) (fun i hi _ => le_trans m4 (hmono hi))
+
+/-! ## the cover branch -/
+
+section cover
+
+variable (b : Basis K) (hv : b.Valid) (k : ℕ) (hk : b.periodic = (k : Int)) (r : ℕ)
+  (hR : b.order + k ≤ (r + 1) * b.numFunctions) (x : K) (hx : b.start ≤ x ∧ x ≤ b.stop)
+
+include hv hk hR hx
+
+/-- Induction over the passes of the cover loop: the accumulated matrix after pass `j+1` is
+    `C_j · (matrix after pass j)` with `C_j` the matrix of one insertion into the `j`-th cover. -/
+theorem cover_cM_induct (Q : ℕ → Mat K → Prop)
+    (h0 : Q 0 (Basis.tileIdentity b.numFunctions (r + 1)))
+    (hstep : ∀ j, j ≤ r → ∀ (c' : Basis K) (Ck : Mat K), Q j (C04.cM b r x j) →
+      (C04.cB b r x j).insertKnot (x + (j : K) * (b.stop - b.start)) = .ok (c', Ck) →
+      Q (j + 1) (Mat.mul Ck (C04.cM b r x j))) :
+    ∀ j, j ≤ r + 1 → Q j (C04.cM b r x j) := by
+  intro j
+  induction j with
+  | zero => intro _; exact h0
+  | succ j ih =>
+    intro hj
+    have hs := C04.cB_state b hv k hk r hR x hx j (by omega)
+    have e1 := C04.cB_run b hv k hk r hR x hx j (by omega)
+    have e2 := C04.cB_run b hv k hk r hR x hx (j + 1) hj
+    rw [C04.coverRun, e1] at e2
+    have e3 : C04.coverStep (b.stop - b.start)
+        (C04.cB b r x j, C04.cM b r x j, x + (j : K) * (b.stop - b.start))
+        = .ok (C04.cB b r x (j + 1), C04.cM b r x (j + 1),
+            x + ((j + 1 : ℕ) : K) * (b.stop - b.start)) := e2
+    unfold C04.coverStep at e3
+    have hguard : (C04.cB b r x j).order + k ≤ (C04.cB b r x j).numFunctions := by
+      rw [hs.order, hs.num]; omega
+    cases hres : (C04.cB b r x j).insertKnotPlain (x + (j : K) * (b.stop - b.start)) with
+    | error e => simp only [hres] at e3; cases e3
+    | ok pr =>
+      obtain ⟨c', Ck⟩ := pr
+      simp only [hres] at e3
+      have hM : Mat.mul Ck (C04.cM b r x j) = C04.cM b r x (j + 1) := by
+        have := Except.ok.inj e3
+        exact (Prod.mk.inj (Prod.mk.inj this).2).1
+      rw [← hM]
+      apply hstep j (by omega) c' Ck (ih (by omega))
+      rw [C04.insertKnot_eq_plain _ _
+        (C04.not_coverCond_of_guard _ hs.valid.order_pos k hs.per hguard)]
+      exact hres
+
+/-- the value of pass `j` lies in the domain of the `j`-th cover -/
+theorem cover_xj_mem (j : ℕ) (hj : j ≤ r) :
+    (C04.cB b r x j).start ≤ x + (j : K) * (b.stop - b.start) ∧
+      x + (j : K) * (b.stop - b.start) ≤ (C04.cB b r x j).stop ∧
+      (x < b.stop → x + (j : K) * (b.stop - b.start) < (C04.cB b r x j).stop) := by
+  have hs := C04.cB_state b hv k hk r hR x hx j (by omega)
+  have hT : 0 < b.stop - b.start := sub_pos.2 hv.start_lt_stop
+  have hjK : (j : K) ≤ (r : K) := by exact_mod_cast hj
+  rw [hs.start, hs.stop]
+  have h1 : 0 ≤ (j : K) * (b.stop - b.start) := mul_nonneg (Nat.cast_nonneg j) (le_of_lt hT)
+  have h2 : (j : K) * (b.stop - b.start) ≤ (r : K) * (b.stop - b.start) :=
+    mul_le_mul_of_nonneg_right hjK (le_of_lt hT)
+  exact ⟨by linarith [hx.1], by linarith [hx.2], fun h => by linarith⟩
+
+theorem cover_rowPositive :
+    RowPositive ((r + 1) * b.numFunctions + (r + 1)) b.numFunctions (C04.cM b r x (r + 1)) := by
+  have hn1 := C04.numFunctions_pos hv
+  refine cover_cM_induct b hv k hk r hR x hx
+    (fun j M => RowPositive ((r + 1) * b.numFunctions + j) b.numFunctions M)
+    (rowStochastic_tile b.numFunctions (r + 1) hn1).rowPositive ?_ (r + 1) (le_refl _)
+  intro j hj c' Ck hQ hins
+  have hs := C04.cB_state b hv k hk r hR x hx j (by omega)
+  obtain ⟨x1, x2, _⟩ := cover_xj_mem b hv k hk r hR x hx j hj
+  have hst := insertKnot_rowPositive_guard (C04.cB b r x j) hs.valid k hs.per
+    (by rw [hs.order, hs.num]; omega) _ ⟨x1, x2⟩ hins
+  rw [hs.num] at hst
+  exact hst.mul hQ (by have : 1 ≤ (r + 1) * b.numFunctions := by nlinarith
+                       omega)
+
+theorem cover_rowStochastic (hlt : x < b.stop) :
+    RowStochastic ((r + 1) * b.numFunctions + (r + 1)) b.numFunctions (C04.cM b r x (r + 1)) := by
+  have hn1 := C04.numFunctions_pos hv
+  refine cover_cM_induct b hv k hk r hR x hx
+    (fun j M => RowStochastic ((r + 1) * b.numFunctions + j) b.numFunctions M)
+    (rowStochastic_tile b.numFunctions (r + 1) hn1) ?_ (r + 1) (le_refl _)
+  intro j hj c' Ck hQ hins
+  have hs := C04.cB_state b hv k hk r hR x hx j (by omega)
+  obtain ⟨x1, x2, x3⟩ := cover_xj_mem b hv k hk r hR x hx j hj
+  have hst := insertKnot_stochastic_periodic (C04.cB b r x j) hs.valid k hs.per
+    (by rw [hs.order, hs.num]; omega) _
+    (by rw [wrapVal_of_mem _ _ ⟨x1, x2⟩]; exact ne_of_lt (x3 hlt)) hins
+  rw [hs.num] at hst
+  exact hst.mul hQ (by have : 1 ≤ (r + 1) * b.numFunctions := by nlinarith
+                       omega)
+
+end cover
+
+/-- The matrix returned by the cover branch: the first `n+1` rows of the accumulated matrix. -/
+theorem insertKnot_small_matrix (b : Basis K) (hv : b.Valid) (k : ℕ) (hk : b.periodic = (k : Int))
+    (hsmall : b.numFunctions < b.order + k) (x : K) (hx : b.start ≤ x ∧ x ≤ b.stop) :
+    ∃ r b1, b.order + k ≤ (r + 1) * b.numFunctions ∧
+      b.insertKnot x = .ok (b1, (C04.cM b r x (r + 1)).extract 0 (b.numFunctions + 1)) := by
+  have hn1 := C04.numFunctions_pos hv
+  have hn := C04.numFunctions_periodic b k hk
+  have hp := hv.order_pos
+  have hsz0 := hv.size_ge
+  have hper : 0 ≤ b.periodic := by rw [hk]; omega
+  obtain ⟨r, hRdef, _, hR⟩ := C04.cover_R b.order k b.numFunctions hn1 hsmall
+  have hnI : (b.knots.size : Int) - (b.order : Int) - (b.periodic + 1) = (b.numFunctions : Int) := by
+    rw [hk]; omega
+  have hcc : C04.coverCond b := by
+    unfold C04.coverCond
+    refine ⟨hper, ?_⟩
+    rw [hnI, hk]; omega
+  have hw : C04.wrapX b x = .ok x := by
+    unfold C04.wrapX
+    rw [if_pos hper, if_neg (not_or.2 ⟨not_lt.2 hx.1, not_lt.2 hx.2⟩)]
+  have hRe : (b.order + b.periodic.toNat + b.numFunctions - 1) / b.numFunctions = r + 1 := by
+    rw [hk]; exact hRdef
+  have hrun := C04.cB_run b hv k hk r hR x hx (r + 1) (le_refl _)
+  have key : b.insertKnot x = .ok
+      ({ b with knots := (C04.cB b r x (r + 1)).knots.extract 0 (b.knots.size + 1) },
+        (C04.cM b r x (r + 1)).extract 0 (b.numFunctions + 1)) := by
+    rw [C04.insertKnot_cover_eq b x x hw hcc hn1 hnI, hRe]
+    have : C04.coverRun (b.stop - b.start)
+        (C04.coverBasis b (r + 1), (Basis.tileIdentity b.numFunctions (r + 1) : Mat K), x) (r + 1)
+        = .ok (C04.cB b r x (r + 1), C04.cM b r x (r + 1),
+            x + ((r + 1 : ℕ) : K) * (b.stop - b.start)) := hrun
+    rw [this]
+  exact ⟨r, _, hR, key⟩
+
+/-! ## one insertion into ANY valid periodic basis -/
+
+/-- **One insertion into any valid periodic basis, any real**: entries `≥ 0`, row sums `≥ 1`. -/
+theorem insertKnot_rowPositive_periodic_all (b : Basis K) (hv : b.Valid) (k : ℕ)
+    (hk : b.periodic = (k : Int)) (x0 : K) {b' : Basis K} {C : Mat K}
+    (h : b.insertKnot x0 = .ok (b', C)) : RowPositive (b.numFunctions + 1) b.numFunctions C := by
+  obtain ⟨hw1, hw2, _⟩ := C04.wrapVal_mem b hv.start_lt_stop x0
+  rw [C04.insertKnot_wrap b (by rw [hk]; omega) hv.start_lt_stop x0] at h
+  generalize C04.wrapVal b x0 = x at hw1 hw2 h
+  by_cases hg : b.order + k ≤ b.numFunctions
+  · exact insertKnot_rowPositive_guard b hv k hk hg x ⟨hw1, hw2⟩ h
+  · obtain ⟨r, b1, hR, e1⟩ := insertKnot_small_matrix b hv k hk (by omega) x ⟨hw1, hw2⟩
+    rw [e1] at h
+    have hC : (C04.cM b r x (r + 1)).extract 0 (b.numFunctions + 1) = C :=
+      (Prod.mk.inj (Except.ok.inj h)).2
+    rw [← hC]
+    have hn1 := C04.numFunctions_pos hv
+    exact (cover_rowPositive b hv k hk r hR x ⟨hw1, hw2⟩).extract _
+      (by have : b.numFunctions ≤ (r + 1) * b.numFunctions := by nlinarith
+          omega)
+
+/-- **One insertion into any valid periodic basis is row stochastic unless the wrapped value is the end
+    of the domain.**  `_partial`: the requested statement without `hne` is false (see the file header:
+    `⟨2, #[0,0,1,1,2], 0⟩`, `insert_knot(1)`). -/
+theorem insertKnot_stochastic_periodic_all_partial (b : Basis K) (hv : b.Valid) (k : ℕ)
+    (hk : b.periodic = (k : Int)) (x0 : K) (hne : C04.wrapVal b x0 ≠ b.stop) {b' : Basis K}
+    {C : Mat K} (h : b.insertKnot x0 = .ok (b', C)) :
+    RowStochastic (b.numFunctions + 1) b.numFunctions C := by
+  by_cases hg : b.order + k ≤ b.numFunctions
+  · exact insertKnot_stochastic_periodic b hv k hk hg x0 hne h
+  · obtain ⟨hw1, hw2, _⟩ := C04.wrapVal_mem b hv.start_lt_stop x0
+    have hlt : C04.wrapVal b x0 < b.stop := lt_of_le_of_ne hw2 hne
+    rw [C04.insertKnot_wrap b (by rw [hk]; omega) hv.start_lt_stop x0] at h
+    generalize C04.wrapVal b x0 = x at hw1 hw2 hlt h
+    obtain ⟨r, b1, hR, e1⟩ := insertKnot_small_matrix b hv k hk (by omega) x ⟨hw1, hw2⟩
+    rw [e1] at h
+    have hC : (C04.cM b r x (r + 1)).extract 0 (b.numFunctions + 1) = C :=
+      (Prod.mk.inj (Except.ok.inj h)).2
+    rw [← hC]
+    have hn1 := C04.numFunctions_pos hv
+    exact (cover_rowStochastic b hv k hk r hR x ⟨hw1, hw2⟩ hlt).extract _
+      (by have : b.numFunctions ≤ (r + 1) * b.numFunctions := by nlinarith
+          omega)
+
+/-! ## sequences -/
+
+theorem insertMany_rowPositive_periodic_all_aux (b0 : Basis K) (hv0 : b0.Valid) (k : ℕ)
+    (hk : b0.periodic = (k : Int)) (xs : List K) :
+    ∀ (b : Basis K) (Cacc : Mat K) (m : ℕ), C04.PerRefines b0 b Cacc m →
+      RowPositive (b0.numFunctions + m) b0.numFunctions Cacc →
+      ∀ {b' : Basis K} {C : Mat K}, C04.insertMany b Cacc xs = .ok (b', C) →
+        RowPositive (b0.numFunctions + (m + xs.length)) b0.numFunctions C := by
+  induction xs with
+  | nil =>
+    intro b Cacc m _ hst b' C h
+    have : (b, Cacc) = (b', C) := Except.ok.inj h
+    rw [← (Prod.mk.inj this).2]
+    simpa using hst
+  | cons x xs ih =>
+    intro b Cacc m href hst b' C h
+    have hk' : b.periodic = (k : Int) := href.periodic_eq.trans hk
+    obtain ⟨b1, C1, hins, hr1, _⟩ := C04.insertKnot_per_step_all b href.valid k hk' x
+    have hst1 := insertKnot_rowPositive_periodic_all b href.valid k hk' x hins
+    rw [href.num_eq] at hst1
+    have hstep : C04.stepIns (b, Cacc) x = .ok (b1, Mat.mul C1 Cacc) := by
+      unfold C04.stepIns
+      simp only [hins]
+      rfl
+    unfold C04.insertMany at h
+    rw [List.foldlM_cons, hstep] at h
+    have hn0 := C04.numFunctions_pos hv0
+    have := ih b1 (Mat.mul C1 Cacc) (m + 1) (C04.perRefines_trans hv0 href hr1)
+      (hst1.mul hst (by omega)) h
+    have e : m + (x :: xs).length = m + 1 + xs.length := by simp; omega
+    rw [e]; exact this
+
+/-- **The accumulated matrix of any sequence of insertions into any valid periodic basis**: entries
+    `≥ 0`, row sums `≥ 1`. -/
+theorem insertMany_rowPositive_periodic_all (b : Basis K) (hv : b.Valid) (k : ℕ)
+    (hk : b.periodic = (k : Int)) (xs : List K) {b' : Basis K} {C : Mat K}
+    (h : C04.insertMany b (Mat.identity b.numFunctions) xs = .ok (b', C)) :
+    RowPositive (b.numFunctions + xs.length) b.numFunctions C := by
+  have := insertMany_rowPositive_periodic_all_aux b hv k hk xs b (Mat.identity b.numFunctions) 0
+    (C04.perRefines_refl b hv)
+    (by simpa using (rowStochastic_identity b.numFunctions).rowPositive) h
+  simpa using this
+
+theorem insertMany_stochastic_periodic_all_partial_aux (b0 : Basis K) (hv0 : b0.Valid) (k : ℕ)
+    (hk : b0.periodic = (k : Int)) (xs : List K) :
+    ∀ (b : Basis K) (Cacc : Mat K) (m : ℕ), C04.PerRefines b0 b Cacc m →
+      RowStochastic (b0.numFunctions + m) b0.numFunctions Cacc →
+      (∀ x ∈ xs, C04.wrapVal b0 x ≠ b0.stop) →
+      ∀ {b' : Basis K} {C : Mat K}, C04.insertMany b Cacc xs = .ok (b', C) →
+        RowStochastic (b0.numFunctions + (m + xs.length)) b0.numFunctions C := by
+  induction xs with
+  | nil =>
+    intro b Cacc m _ hst _ b' C h
+    have : (b, Cacc) = (b', C) := Except.ok.inj h
+    rw [← (Prod.mk.inj this).2]
+    simpa using hst
+  | cons x xs ih =>
+    intro b Cacc m href hst hxs b' C h
+    have hx := hxs x List.mem_cons_self
+    have hk' : b.periodic = (k : Int) := href.periodic_eq.trans hk
+    have hne' : C04.wrapVal b x ≠ b.stop := by
+      rw [C04.wrapVal_congr b0 b href.start_eq href.stop_eq, href.stop_eq]; exact hx
+    obtain ⟨b1, C1, hins, hr1, _⟩ := C04.insertKnot_per_step_all b href.valid k hk' x
+    have hst1 := insertKnot_stochastic_periodic_all_partial b href.valid k hk' x hne' hins
+    rw [href.num_eq] at hst1
+    have hstep : C04.stepIns (b, Cacc) x = .ok (b1, Mat.mul C1 Cacc) := by
+      unfold C04.stepIns
+      simp only [hins]
+      rfl
+    unfold C04.insertMany at h
+    rw [List.foldlM_cons, hstep] at h
+    have hn0 := C04.numFunctions_pos hv0
+    have := ih b1 (Mat.mul C1 Cacc) (m + 1) (C04.perRefines_trans hv0 href hr1)
+      (hst1.mul hst (by omega)) (fun y hy => hxs y (List.mem_cons_of_mem _ hy)) h
+    have e : m + (x :: xs).length = m + 1 + xs.length := by simp; omega
+    rw [e]; exact this
+
+/-- Row stochastic when no wrapped value is the end of the domain (any number of functions). -/
+theorem insertMany_stochastic_periodic_all_partial (b : Basis K) (hv : b.Valid) (k : ℕ)
+    (hk : b.periodic = (k : Int)) (xs : List K) (hxs : ∀ x ∈ xs, C04.wrapVal b x ≠ b.stop)
+    {b' : Basis K} {C : Mat K}
+    (h : C04.insertMany b (Mat.identity b.numFunctions) xs = .ok (b', C)) :
+    RowStochastic (b.numFunctions + xs.length) b.numFunctions C := by
+  have := insertMany_stochastic_periodic_all_partial_aux b hv k hk xs b
+    (Mat.identity b.numFunctions) 0 (C04.perRefines_refl b hv)
+    (by simpa using rowStochastic_identity b.numFunctions) hxs h
+  simpa using this
+
+end C10
+
+/-! ## object level, every periodic direction -/
+
+namespace Obj
+
+/-- **`SplineObject.insert_knot` along ANY periodic direction, any reals, keeps the object well
+    formed.** -/
+theorem WellFormed.insertKnots_periodic_all {o o' : Obj K} (h : o.WellFormed) (dir : ℕ)
+    (hd : dir < o.bases.size) (k : ℕ) (hk : (o.basis dir).periodic = (k : Int)) (xs : List K)
+    (hs : o.insertKnots xs dir = .ok o') :
+    o'.WellFormed ∧ o'.bases.size = o.bases.size ∧ (∀ d, d ≠ dir → o'.basis d = o.basis d) ∧
+      (o'.basis dir).periodic = (k : Int) ∧ (o'.basis dir).order = (o.basis dir).order ∧
+      (o'.basis dir).numFunctions = (o.basis dir).numFunctions + xs.length ∧
+      (o'.basis dir).start = (o.basis dir).start ∧ (o'.basis dir).stop = (o.basis dir).stop := by
+  have hv := h.valid dir hd
+  have hshape : o.cps.shape.getD dir 0 = (o.basis dir).numFunctions := h.shape_getD dir 0 hd
+  obtain ⟨b', C, hm, href, _⟩ := C04.insertMany_periodic_all (o.basis dir) hv k hk xs
+  have hst := C10.insertMany_rowPositive_periodic_all (o.basis dir) hv k hk xs hm
+  rw [C04.insertKnots_eq, hshape, hm] at hs
+  have ho' : o' = { o with bases := o.bases.set! dir b', cps := Tensor.applyAxis C o.cps dir } :=
+    (Except.ok.inj hs).symm
+  subst ho'
+  have hCsize : C.size = (o.basis dir).numFunctions + xs.length := href.shape.1
+  have hmid : (Tensor.split3 o.cps.shape dir).2.1 = (o.basis dir).numFunctions := by
+    simp only [Tensor.split3]; exact h.shape_getD dir 1 hd
+  have hax1 : dir + 1 < o.cps.shape.length := by rw [h.shape_length]; omega
+  refine ⟨?_, ?_, fun d hd' => C04.basis_set_ne o dir d hd' _ _, ?_, ?_, ?_, ?_, ?_⟩
+  · refine h.build3 dir C.size (fun a r i =>
+      (List.range (Tensor.split3 o.cps.shape dir).2.1).foldl
+        (fun acc j => acc + (C.getD r #[]).getD j 0 * o.cps.at3 dir a j i) 0) b' hd href.valid
+      (by rw [href.num_eq, hCsize]) ?_
+    intro hr a r i ha hr' hi him
+    have e : (List.range (Tensor.split3 o.cps.shape dir).2.1).foldl
+        (fun acc j => acc + (C.getD r #[]).getD j 0 * o.cps.at3 dir a j i) 0
+        = C04.mulVec C (o.basis dir).numFunctions (fun j => o.cps.at3 dir a j i) r := by
+      rw [C04.foldl_add_eq_sum, hmid]; rfl
+    rw [e]
+    apply hst.mulVec_pos _ _ r (by omega)
+    intro j hj
+    exact C10.at3_pos o.cps o.ncomp o.dimension h.data_size (h.tpos hr) dir hax1 (h.last_eq 1) a j i ha
+      (by rw [hmid]; exact hj) hi him
+  · show (o.bases.set! dir b').size = o.bases.size
+    simp
+  · rw [C04.basis_set o dir hd]; exact href.periodic_eq.trans hk
+  · rw [C04.basis_set o dir hd]; exact href.order_eq
+  · rw [C04.basis_set o dir hd]; exact href.num_eq
+  · rw [C04.basis_set o dir hd]; exact href.start_eq
+  · rw [C04.basis_set o dir hd]; exact href.stop_eq
+
+/-- The only condition left on inserted values: inside `[start, end)` along a NON-periodic direction. -/
+def OpenKnotsOK (b : Basis K) (xs : List K) : Prop :=
+  b.periodic = -1 → ∀ x ∈ xs, b.start ≤ x ∧ x < b.stop
+
+theorem periodic_cases {b : Basis K} (hv : b.Valid) :
+    b.periodic = -1 ∨ ∃ k : ℕ, b.periodic = (k : Int) := by
+  have := hv.periodic_ge
+  by_cases h : b.periodic = -1
+  · exact Or.inl h
+  · exact Or.inr ⟨b.periodic.toNat, by omega⟩
+
+/-- **`SplineObject.insert_knot` along any direction keeps the object well formed.** -/
+theorem WellFormed.insertKnots_all {o o' : Obj K} (h : o.WellFormed) (dir : ℕ)
+    (hd : dir < o.bases.size) (xs : List K) (hok : OpenKnotsOK (o.basis dir) xs)
+    (hs : o.insertKnots xs dir = .ok o') :
+    o'.WellFormed ∧ o'.bases.size = o.bases.size ∧ (∀ d, d ≠ dir → o'.basis d = o.basis d) ∧
+      (o'.basis dir).periodic = (o.basis dir).periodic := by
+  rcases periodic_cases (h.valid dir hd) with hper | ⟨k, hk⟩
+  · obtain ⟨h1, h2, h3, h4, _, _⟩ := h.insertKnots dir hd hper xs (hok hper) hs
+    exact ⟨h1, h2, h3, by rw [h4, hper]⟩
+  · obtain ⟨h1, h2, h3, h4, _⟩ := h.insertKnots_periodic_all dir hd k hk xs hs
+    exact ⟨h1, h2, h3, by rw [h4, hk]⟩
+
+theorem WellFormed.refineDir {o o' : Obj K} (h : o.WellFormed) (tol : K) (htol : 0 ≤ tol) (n d : ℕ)
+    (hs : o.refineDir tol n d = .ok o') : o'.WellFormed := by
+  unfold Obj.refineDir at hs
+  by_cases hpd : d < o.pardim
+  · rw [if_pos hpd] at hs
+    simp only [] at hs
+    unfold Obj.insertKnotDir at hs
+    rw [if_pos hpd] at hs
+    have hd : d < o.bases.size := by rw [← h.pardim_eq]; exact hpd
+    have hv := h.valid d hd
+    obtain ⟨hs1, hs2⟩ := C04.knotSpans_spec (o.basis d) hv tol htol
+    have hok : OpenKnotsOK (o.basis d) (refineValues ((o.basis d).knotSpans tol false).toList n) := by
+      intro _ v hv'
+      have := (C04.refineValues_mem _ hs1 _ _ hs2 n v hv').2
+      exact ⟨le_of_lt this.1, this.2⟩
+    exact (h.insertKnots_all d hd _ hok hs).1
+  · rw [if_neg hpd] at hs
+    cases hs
+
+theorem WellFormed.refineFold (tol : K) (htol : 0 ≤ tol) (l : List (ℕ × ℕ)) :
+    ∀ (o o' : Obj K), o.WellFormed →
+      l.foldlM (fun (o : Obj K) (nd : ℕ × ℕ) => o.refineDir tol nd.1 nd.2) o = .ok o' →
+      o'.WellFormed := by
+  induction l with
+  | nil =>
+    intro o o' h hs
+    have : o = o' := Except.ok.inj hs
+    rw [← this]; exact h
+  | cons nd l ih =>
+    intro o o' h hs
+    rw [List.foldlM_cons] at hs
+    cases hres : o.refineDir tol nd.1 nd.2 with
+    | error e => rw [hres] at hs; cases hs
+    | ok o1 =>
+      rw [hres] at hs
+      exact ih o1 o' (h.refineDir tol htol nd.1 nd.2 hres) hs
+
+end Obj
+
+/-! ## history steps, every direction -/
+
+namespace History
+
+/-- `insert_knot` along any direction.  `_partial`: along a NON-periodic direction the values must lie
+    in `[start, end)` (the code raises / the end value is excluded as in C04); nothing is asked of a
+    periodic direction. -/
+theorem stepOut_insertKnot_all_wf_partial {o : Obj K} (h : o.WellFormed) (tol : K)
+    (knots : List K) (dir : ℕ) (hok : Obj.OpenKnotsOK (o.basis dir) knots)
+    {out : Out K} (hs : stepOut tol o (.insertKnot knots dir) = .ok out) :
+    out.recv.WellFormed ∧ out.news = [] := by
+  change inPlace (o.insertKnotDir knots dir) = .ok out at hs
+  unfold inPlace Obj.insertKnotDir at hs
+  by_cases hpd : dir < o.pardim
+  · rw [if_pos hpd] at hs
+    have hd : dir < o.bases.size := by rw [← h.pardim_eq]; exact hpd
+    cases hres : o.insertKnots knots dir with
+    | error e => rw [hres] at hs; cases hs
+    | ok o1 =>
+      rw [hres] at hs
+      have : ({ recv := o1, news := [] } : Out K) = out := Except.ok.inj hs
+      rw [← this]
+      exact ⟨(h.insertKnots_all dir hd knots hok hres).1, rfl⟩
+  · rw [if_neg hpd] at hs
+    cases hs
+
+/-- **`refine` keeps every well-formed object well formed** (no hypothesis on the directions). -/
+theorem stepOut_refine_wf_all {o : Obj K} (h : o.WellFormed) (tol : K) (htol : 0 ≤ tol)
+    (ns : List ℕ) (direction : Option ℕ)
+    {out : Out K} (hs : stepOut tol o (.refine ns direction) = .ok out) :
+    out.recv.WellFormed ∧ out.news = [] := by
+  change inPlace (o.refine tol ns direction) = .ok out at hs
+  unfold inPlace at hs
+  cases hres : o.refine tol ns direction with
+  | error e => rw [hres] at hs; cases hs
+  | ok o1 =>
+    rw [hres] at hs
+    have : ({ recv := o1, news := [] } : Out K) = out := Except.ok.inj hs
+    rw [← this]
+    obtain ⟨l, hl⟩ := Obj.refine_eq_fold tol ns direction hres
+    exact ⟨Obj.WellFormed.refineFold tol htol l o o1 h hl, rfl⟩
 
 end History
 
